@@ -69,3 +69,49 @@ pub fn pct_program(p: &Prog, iters: usize, seed: u64) -> (Value, Vec<Value>) {
     }
     (json!({"prog": p.id, "runs": runs, "capped": false, "nondet": null, "outcomes": []}), log)
 }
+
+/// Where do the priority change points fall?  For a program of two tasks that are always runnable and spawn nothing
+/// after the start, every decision at which the running task is still offered, did not yield, and is not chosen is
+/// a change point.  Position j (index among the decisions with more than one choice) is compared with the share
+/// min(d-1, K-1)/(K-1) it gets when the d-1 points are drawn from [1, K-1], K = the scheduler's running estimate.
+pub fn pct_positions(p: &Prog, depth: usize, iters: usize, seed: u64) -> Value {
+    let prog = Arc::new(p.clone());
+    let cfg = crate::config_for(p);
+    let a = run_all(&prog, Box::new(PctScheduler::new_from_seed(seed, depth, iters)), &cfg, iters + 2);
+    let mut kest = 0usize;
+    // buckets: first (j = 1), last (j = K-1), middle
+    let mut exp = [0f64; 3];
+    let mut obs = [0u64; 3];
+    let mut per_exec_max = 0usize;
+    for (i, ex) in a.iter().enumerate() {
+        let mut decs: Vec<(i64, Vec<i64>, bool, i64)> = vec![];
+        for e in &ex.events {
+            let v: Value = serde_json::from_str(e).unwrap();
+            if v["e"] == "dec" {
+                let run: Vec<i64> = v["run"].as_array().unwrap().iter().map(|x| x.as_i64().unwrap()).collect();
+                if run.len() > 1 {
+                    decs.push((v["cur"].as_i64().unwrap(), run, v["y"].as_bool().unwrap_or(false), v["ch"].as_i64().unwrap()));
+                }
+            }
+        }
+        if i >= 1 && kest >= 3 {
+            let share = ((depth - 1).min(kest - 1)) as f64 / (kest - 1) as f64;
+            let mut npre = 0usize;
+            for (j, (cur, run, y, ch)) in decs.iter().enumerate() {
+                if j == 0 || j > kest - 1 {
+                    continue;
+                }
+                let b = if j == kest - 1 { 1 } else if j == 1 { 0 } else { 2 };
+                exp[b] += share;
+                if run.contains(cur) && !*y && ch != cur {
+                    obs[b] += 1;
+                    npre += 1;
+                }
+            }
+            per_exec_max = per_exec_max.max(npre);
+        }
+        kest = kest.max(decs.len());
+    }
+    json!({"prog": p.id, "depth": depth, "execs": a.len(), "k": kest, "expected": exp, "observed": obs,
+           "max_change_points_in_one_execution": per_exec_max})
+}
